@@ -3,7 +3,7 @@ CONSTANTS
   Mode = "rename"
   NOps = 1000
   Kinds = {"Replace", "Partial", "BadMarshal"}
-  MaxChunks = 4
+  MaxChunks = 8
   Errnos = {"EACCES", "ENOSPC", "EIO", "ENOENT", "ENOTDIR", "EFBIG", "EROFS", "EPERM", "EXDEV", "EDQUOT", "EISDIR", "other"}
   MaxFaults = 1000
   MaxCrashes = 1000
